@@ -39,6 +39,8 @@ def random_case(prop, rng, tier):
              'start': s * 6, 'dur': rng.randrange(0, 200), 'milestone': rng.random() < 0.15, 'estimate': rng.choice([0, 2, 8, 4, 0.5]),       # powers of two: spent / estimate is exact in floating point
              'spent': rng.choice([None, 0, 1, 10, 3, 0.25]), 'section': rng.choice([None, None, 'S1', 'Sec two']) if rng.random() < 0.5 else None,
              'bar': rng.random() < 0.2, 'net': rng.random() < 0.2}
+        # a dated task of another project: links to it leave the rendered WBS (it has no line / entry of its own, the link stays)
+        t['outside'] = bool(i) and t['parent'] is None and rng.random() < 0.12
         tasks.append(t)
     ids = set()
     for t in tasks:
@@ -53,6 +55,7 @@ def random_case(prop, rng, tier):
 def build(case):
     from pjplan import Task, WBS
     w = WBS()
+    w2 = WBS()
     objs = []
     for i, t in enumerate(case['tasks']):
         st = datetime(2024, 1, 1) + timedelta(hours=t['start'])
@@ -67,7 +70,7 @@ def build(case):
         o = Task(t['id'], t['name'], start=st, end=st + timedelta(hours=0 if t['milestone'] else t['dur']), milestone=t['milestone'],
                  estimate=t['estimate'], spent=t['spent'], **kw)
         if t['parent'] is None:
-            w // o
+            (w2 if t.get('outside') else w) // o
         else:
             objs[t['parent']] // o
         objs.append(o)
@@ -172,6 +175,9 @@ def judge(prop, case, rec, out):
         mon['oneEntryPerTask'] = sorted(ids) == sorted(rec['dhtmlx'][u]['id'] for u in rec['members']) and len(ids) == len(set(ids))
         lid = [l[0] for l in rec['obsLinks']]
         mon['linksNumbered'] = lid == list(range(1, len(lid) + 1))
+        # one link per dependency of a task of the WBS (links to tasks of other projects included)
+        deps = sorted([rec['dhtmlx'][p]['id'], rec['dhtmlx'][u]['id']] for u in rec['members'] for p in rec['dhtmlx'][u]['preds'])
+        mon['oneLinkPerDependency'] = sorted([l[1], l[2]] for l in rec['obsLinks']) == deps
         mon['progressInRange'] = all(0 <= Fraction(e[6]) <= 1 for e in rec['obsData'])
     hyp = {}
     sig = None
